@@ -68,6 +68,12 @@ type Case struct {
 	Local   []uint64 `json:"local"`
 	Hostile bool     `json:"hostile"`
 	Lazy    bool     `json:"lazy,omitempty"`
+	// Busy histories: both paths hold many transactions, no control traffic; they
+	// end with a fair tail that serves one path only (Serve = "inside"/"outside")
+	// starting at event TailStart.
+	Busy      bool   `json:"busy,omitempty"`
+	Serve     string `json:"serve,omitempty"`
+	TailStart int    `json:"tail_start,omitempty"`
 	Events  []Event  `json:"events"`
 	Coq     string   `json:"coq"`
 }
@@ -542,6 +548,128 @@ func generateLazy(rng *vh.Rng) Case {
 	return c
 }
 
+// generateBusy produces a protocol-respecting history without control traffic
+// in which one path is starved of responses (its transactions pile up beyond
+// the port buffer size) while the other path keeps working, and ends it with
+// a fair tail for the served path: every round ticks once, empties the two
+// out-buffers of the served path and answers every forwarded request. The
+// number of rounds is large enough for every accepted request of the served
+// path to be forwarded and answered whatever the other path holds.
+func generateBusy(rng *vh.Rng) Case {
+	c := Case{Buf: 2 + rng.Intn(3), Busy: true, Bank: 4096}
+	for i := range c.W {
+		c.W[i] = 1 + rng.Intn(3)
+	}
+	c.Remote = []uint64{0, 100, 101}
+	c.Local = []uint64{200, 201}
+	c.Serve = "outside"
+	if rng.Bool() {
+		c.Serve = "inside"
+	}
+	r := newRunner(&c)
+	var pendIn, pendOut, ansIn, ansOut []outstanding
+	nextID := uint64(1)
+	accIn, accOut := 0, 0 // accepted requests per path
+	wIn, wOut := 6, 0
+	if c.Serve == "outside" {
+		wIn, wOut = 0, 6
+	}
+	do := func(e Event) (Event, bool) {
+		if e.Msg != nil {
+			e.Msg.Fix()
+		}
+		crashed := r.apply(&e)
+		c.Events = append(c.Events, e)
+		if e.E == "r" && e.Got != nil {
+			o := outstanding{id: e.Got.ID, read: e.Got.Kind == "KRead", size: int(e.Got.Size)}
+			switch e.Port {
+			case "RO":
+				pendIn = append(pendIn, o)
+			case "DI":
+				pendOut = append(pendOut, o)
+			}
+		}
+		if e.E == "d" && e.Acc != nil && *e.Acc {
+			switch e.Port {
+			case "RI":
+				accIn++
+			case "DO":
+				accOut++
+			case "RO":
+				markAnswered(&pendIn, &ansIn, e.Msg.RspTo)
+			case "DI":
+				markAnswered(&pendOut, &ansOut, e.Msg.RspTo)
+			}
+		}
+		return e, crashed
+	}
+	n := 50 + rng.Intn(90)
+	for i := 0; i < n; i++ {
+		var e Event
+		switch rng.Pick(14, 14, wIn, wOut, 22, 10, 10, 4, 4) {
+		case 0:
+			m := randReq(rng, nextID, uint64(10+rng.Intn(3)), pRI, uint64(4096+rng.Intn(2*4096)))
+			nextID++
+			e = Event{E: "d", Port: "RI", Msg: &m}
+		case 1:
+			m := randReq(rng, nextID, uint64(20+rng.Intn(3)), pDO, uint64(rng.Intn(2*4096)))
+			nextID++
+			e = Event{E: "d", Port: "DO", Msg: &m}
+		case 2:
+			e = genRsp(rng, false, &pendIn, &ansIn, "RO", 100, pRO)
+		case 3:
+			e = genRsp(rng, false, &pendOut, &ansOut, "DI", 200, pDI)
+		case 4:
+			e = Event{E: "tick"}
+		case 5:
+			e = Event{E: "r", Port: "RO"}
+		case 6:
+			e = Event{E: "r", Port: "DI"}
+		case 7:
+			e = Event{E: "r", Port: "RI"}
+		case 8:
+			e = Event{E: "r", Port: "DO"}
+		}
+		if _, crashed := do(e); crashed {
+			c.Coq = caseCoq(&c)
+			return c
+		}
+	}
+	// ---- fair tail for the served path
+	c.TailStart = len(c.Events)
+	fport, qport, src, dst := "DI", "DO", uint64(200), uint64(pDI)
+	pend, ans, acc := &pendOut, &ansOut, accOut
+	if c.Serve == "inside" {
+		fport, qport, src, dst = "RO", "RI", 100, pRO
+		pend, ans, acc = &pendIn, &ansIn, accIn
+	}
+	unforwarded := acc - len(*pend) - len(*ans)
+	rounds := 2*(unforwarded+len(*pend)) + 6
+	for k := 0; k < rounds; k++ {
+		if _, crashed := do(Event{E: "tick"}); crashed {
+			break
+		}
+		for {
+			e, _ := do(Event{E: "r", Port: fport})
+			if e.None {
+				break
+			}
+		}
+		for {
+			e, _ := do(Event{E: "r", Port: qport})
+			if e.None {
+				break
+			}
+		}
+		for _, o := range append([]outstanding{}, (*pend)...) {
+			m := rspFor(rng, o, src, dst)
+			do(Event{E: "d", Port: fport, Msg: &m})
+		}
+	}
+	c.Coq = caseCoq(&c)
+	return c
+}
+
 func markAnswered(pend, ans *[]outstanding, id uint64) {
 	for k, o := range *pend {
 		if o.id == id {
@@ -969,6 +1097,7 @@ func main() {
 	n := flag.Int("n", 100, "number of cases")
 	hostileEvery := flag.Int("hostile-every", 4, "every k-th RDMA history uses the hostile stream")
 	lazyEvery := flag.Int("lazy-every", 5, "every k-th RDMA history has back-pressure on the control port")
+	busyEvery := flag.Int("busy-every", 5, "every k-th RDMA history piles up transactions on one path and ends with a fair tail for the other")
 	out := flag.String("out", "", "output JSON file")
 	rep := flag.String("replay", "", "JSON file with cases to replay")
 	flag.Parse()
@@ -987,6 +1116,10 @@ func main() {
 			}
 		} else {
 			for i := 0; i < *n; i++ {
+				if *busyEvery > 0 && i%*busyEvery == 1%*busyEvery {
+					cases = append(cases, generateBusy(rng.Fork()))
+					continue
+				}
 				if *lazyEvery > 0 && i%*lazyEvery == *lazyEvery-2 {
 					cases = append(cases, generateLazy(rng.Fork()))
 					continue
